@@ -155,6 +155,9 @@ struct SimEngineInner {
     stall: sync::watch::Sender<bool>,
     /// time the execution layer needs to verify a payload (honours cancellation of the context)
     verify_delay: Mutex<Option<time::Duration>>,
+    /// crash injection and the write counter only apply once this is set (after the replica of a
+    /// step has been started and restored: writes made by `StateMachine::start` itself do not count)
+    armed: AtomicBool,
 }
 
 #[derive(Clone)]
@@ -184,6 +187,7 @@ impl SimEngine {
             bad_store_request: Mutex::new(None),
             stall: sync::watch::channel(false).0,
             verify_delay: Mutex::new(None),
+            armed: AtomicBool::new(false),
         }))
     }
     /// Payload verification takes this long from now on.
@@ -225,6 +229,7 @@ impl SimEngine {
             bad_store_request: Mutex::new(None),
             stall: sync::watch::channel(false).0,
             verify_delay: Mutex::new(None),
+            armed: AtomicBool::new(false),
         }))
     }
 }
@@ -284,6 +289,10 @@ impl EngineInterface for SimEngine {
         Ok(self.0.state.lock().unwrap().clone())
     }
     async fn set_state(&self, _ctx: &ctx::Ctx, state: &ReplicaState) -> ctx::Result<()> {
+        if !self.0.armed.load(SeqCst) {
+            *self.0.state.lock().unwrap() = through_the_codec(state)?;
+            return Ok(());
+        }
         let k = self.0.set_state_calls.fetch_add(1, SeqCst);
         if let Some(c) = self.0.crash {
             if c.at == k {
@@ -330,6 +339,7 @@ pub fn step(w: &World, idx: usize, local: &Local, input: &Input, policy: &Policy
         bad_store_request: Mutex::new(None),
             stall: sync::watch::channel(false).0,
             verify_delay: Mutex::new(None),
+            armed: AtomicBool::new(false),
     }));
     let eng2 = eng.clone();
     let key = w.c.keys[idx].clone();
@@ -350,6 +360,8 @@ pub fn step(w: &World, idx: usize, local: &Local, input: &Input, policy: &Policy
     }
 
     let snap_in = local.snap.clone();
+    let durable_in = local.durable.clone();
+    let durable_in = &durable_in;
     let res: Result<Res, String> = core::catch(std::panic::AssertUnwindSafe(|| sched::run(&ch, |idle| async move {
         let clock = ctx::ManualClock::new();
         let root = ctx::test_root(&clock);
@@ -380,6 +392,11 @@ pub fn step(w: &World, idx: usize, local: &Local, input: &Input, policy: &Policy
             });
             let mut replica = bv::Replica::start(ctx, cfg2.clone()).await?;
             replica.restore(snap.clone());
+            // whatever start() wrote or sent is not part of this step (the state is the given snapshot)
+            let _ = replica.drain_outbound();
+            let _ = replica.published_justification();
+            *eng3.0.state.lock().unwrap() = durable_in.clone();
+            eng3.0.armed.store(true, SeqCst);
             let mut deadline_expired = false;
             let mut synced = 0usize;
             let mut blocked = false;
@@ -479,7 +496,13 @@ pub fn step(w: &World, idx: usize, local: &Local, input: &Input, policy: &Policy
     };
     if crashed || out.blocked {
         // the process is gone: only the durable image survives
-        out.local = real_restart(w, idx, &out.local);
+        match try_real_restart(w, idx, &out.local) {
+            Ok(l) => out.local = l,
+            Err(e) => {
+                out.local = out.local.restarted();
+                out.panicked.get_or_insert(format!("after the crash the node does not come back up: {e}"));
+            }
+        }
     }
     out
 }
@@ -489,30 +512,49 @@ pub fn step(w: &World, idx: usize, local: &Local, input: &Input, policy: &Policy
 /// (`Local::restarted` is the harness's own transcription of that; it is only used to decide whether
 /// a restart can change anything and as a cross-check in the self test.)
 pub fn real_restart(w: &World, idx: usize, local: &Local) -> Local {
+    try_real_restart(w, idx, local).unwrap_or_else(|_| local.restarted())
+}
+
+/// As `real_restart`; `Err` if the real `StateMachine::start` panics or never returns (the node
+/// cannot come back up). Whatever `start` writes to durable storage is part of the result.
+pub fn try_real_restart(w: &World, idx: usize, local: &Local) -> Result<Local, String> {
     let eng = SimEngine::from_local(w, local);
     let eng2 = eng.clone();
     let key = w.c.keys[idx].clone();
     let epoch = w.c.epoch;
     let ch = core::Chooser::new(vec![], None);
-    let snap = sched::run(&ch, |_idle| async move {
-        let clock = ctx::ManualClock::new();
-        let root = ctx::test_root(&clock);
-        let (mgr, runner) = EngineManager::new(&root, Box::new(eng2), time::Duration::seconds(1)).await.expect("EngineManager::new");
-        let cfg = Arc::new(Config::new(key, MAX_PAYLOAD, time::Duration::seconds(VIEW_TIMEOUT_S), mgr, epoch).expect("Config::new"));
-        let r: Result<bv::Snapshot, ctx::Error> = scope::run!(&root, |ctx, s| async move {
-            s.spawn_bg(async move {
-                let _ = runner.run(ctx).await;
-                Ok(())
-            });
-            let replica = bv::Replica::start(ctx, cfg).await?;
-            Ok(replica.snapshot())
+    let r = core::catch(std::panic::AssertUnwindSafe(|| {
+        sched::run(&ch, |idle| async move {
+            let clock = ctx::ManualClock::new();
+            let root = ctx::test_root(&clock);
+            let (mgr, runner) = EngineManager::new(&root, Box::new(eng2), time::Duration::seconds(1)).await.expect("EngineManager::new");
+            let cfg = Arc::new(Config::new(key, MAX_PAYLOAD, time::Duration::seconds(VIEW_TIMEOUT_S), mgr, epoch).expect("Config::new"));
+            let root = &root;
+            let fut = async move {
+                scope::run!(root, |ctx, s| async move {
+                    s.spawn_bg(async move {
+                        let _ = runner.run(ctx).await;
+                        Ok(())
+                    });
+                    let replica = bv::Replica::start(ctx, cfg).await?;
+                    Ok::<_, ctx::Error>(replica.snapshot())
+                })
+                .await
+            };
+            match sched::drive(&idle, fut, |_| false).await {
+                sched::Driven::Done(r) => r.map_err(|e| format!("StateMachine::start failed: {e:?}")),
+                sched::Driven::Stuck => Err("StateMachine::start never returns (nothing is runnable any more)".to_string()),
+            }
         })
-        .await;
-        r.expect("StateMachine::start")
-    });
-    Local { snap, durable: local.durable.clone(), blocks: local.blocks.clone() }
+    }));
+    let snap = match r {
+        Ok(Ok(s)) => s,
+        Ok(Err(e)) => return Err(e),
+        Err(p) => return Err(format!("StateMachine::start panicked: {}", p.lines().take(2).collect::<Vec<_>>().join(" "))),
+    };
+    let after = eng.durable_local();
+    Ok(Local { snap, durable: after.durable, blocks: after.blocks })
 }
-
 
 // ---------------------------------------------------------------------------------------------
 // The real `Config::run` loops (StateMachine::run + run_proposer) of several nodes on the controlled
